@@ -652,6 +652,8 @@ theorem build_num : ∀ (u : U) (e : SaExpr), NumU u = true → build u = some e
   | .subq _ _, _, hu, _ => by simp [NumU] at hu
   | .inOp _ _ _, _, hu, _ => by simp [NumU] at hu
   | .tupleIn _ _ _, _, hu, _ => by simp [NumU] at hu
+  | .pi _, _, hu, _ => by simp [NumU] at hu
+  | .ps _, _, hu, _ => by simp [NumU] at hu
   | .strop _ _ _ _, _, hu, _ => by simp [NumU] at hu
   | .absent, _, hu, _ => by simp [NumU] at hu
 
@@ -675,6 +677,7 @@ theorem build_bool : ∀ (u : U) (e : SaExpr), BoolU u = true → build u = some
     | none => simp [ha] at hb
     | some x =>
       have nx := build_num a x hna ha
+      have hpl : isPyLit a = false := by cases a <;> first | rfl | (simp [NumU] at hna)
       cases hb' : build b with
       | none => simp [ha, hb'] at hb
       | some y =>
@@ -682,7 +685,7 @@ theorem build_bool : ∀ (u : U) (e : SaExpr), BoolU u = true → build u = some
         rcases hbb with hnb | hnull
         · have ny := build_num b y hnb hb'
           have hpr := pyReflected_num x y ny
-          simp only [hpr, Bool.false_eq_true, if_false] at hb
+          simp only [hpr, hpl, Bool.or_false, Bool.false_eq_true, if_false] at hb
           obtain ⟨e', he', be'⟩ := booleanCompare_num x y k hk nx ny
           have : booleanCompare x k.op y (negateOp k.op) none = some e := by
             cases hr : k.reflected with
@@ -698,7 +701,7 @@ theorem build_bool : ∀ (u : U) (e : SaExpr), BoolU u = true → build u = some
             have hk4 : k = .eq ∨ k = .ne ∨ k = .is_ ∨ k = .isnot := by
               simpa [Bool.or_eq_true, or_assoc] using hnull
             have hpr : pyReflected x SaExpr.null = false := by cases x <;> simp [pyReflected]
-            simp only [hpr, Bool.false_eq_true, if_false] at hb
+            simp only [hpr, hpl, Bool.or_false, Bool.false_eq_true, if_false] at hb
             obtain ⟨e', he', be'⟩ := booleanCompare_null x k hk4 nx
             have : booleanCompare x k.op .null (negateOp k.op) none = some e := by
               cases hr : k.reflected with
@@ -754,6 +757,8 @@ theorem build_bool : ∀ (u : U) (e : SaExpr), BoolU u = true → build u = some
   | .subq _ _, _, hu, _ => by simp [BoolU] at hu
   | .inOp _ _ _, _, hu, _ => by simp [BoolU] at hu
   | .tupleIn _ _ _, _, hu, _ => by simp [BoolU] at hu
+  | .pi _, _, hu, _ => by simp [BoolU] at hu
+  | .ps _, _, hu, _ => by simp [BoolU] at hu
   | .strop _ _ _ _, _, hu, _ => by simp [BoolU] at hu
   | .absent, _, hu, _ => by simp [BoolU] at hu
 
